@@ -85,6 +85,7 @@ func init() {
 			"GJS.Props.C11.KF_allOf_overlap_first_wins",
 			"GJS.Props.C11.mergeKvs_disjoint", "GJS.Props.C11.validProps_append", "GJS.Props.C11.merge_plainObj", "GJS.Props.C11.merge_valid_conj",
 			"GJS.Props.C11.fold_valid_conj", "GJS.Props.C11.allOf_is_conjunction",
+			"GJS.Props.C11.mergeKvs_compat", "GJS.Props.C11.validProps_compat", "GJS.Props.C11.merge_valid_conj_compat", "GJS.Props.C11.fold_valid_conj_compat", "GJS.Props.C11.allOf_is_conjunction_overlap", "GJS.Props.C11.leaf_idem",
 		})
 		var pcs []*core.PCase
 		type meta struct {
